@@ -181,6 +181,11 @@ fn case_json(c: &Case) -> Value {
 }
 
 pub fn replay(case: &Value) -> Result<Verdict, String> {
+    if case["kind"] == "perm-pair" {
+        // replayed through the differential oracle of C02 on the tree's directed file set
+        let tree = crate::term::decode_expr(case["tree"].as_str().ok_or("tree")?)?;
+        return Ok(crate::checks::c02::judge(&crate::checks::c02::Case { tree, files: vec![], threads: None, via_text: false }));
+    }
     let arg = if let Some(d) = case["octal"].as_str() {
         Arg::Octal(d.to_string())
     } else {
@@ -306,6 +311,78 @@ pub fn run(ctx: &Ctx) -> Report {
     });
     total.merge(long);
     total.exhaustive_parts.push("lists of 5..1000 clauses (one clause followed or preceded by repetitions of another), every ninth of the 315 x 315 combinations per length".into());
+    // two mode tests side by side under every operator (each must keep its own meaning: folding
+    // '-perm /A , -perm /B' into one any-bit test is wrong, the ',' is a conjunction here), executed
+    // on all 4096 modes of a regular file
+    let mut stp = Stats::new();
+    {
+        let modes = [0o400u32, 0o040, 0o644, 0o111, 0o4000, 0o7777];
+        let mut files = vec![];
+        for pm in 0..0o10000u32 {
+            let mut f = FileRec::base(now_secs());
+            f.mode = 0o100000 | pm;
+            files.push(f);
+        }
+        let holds = |k: PKind, m: u32, mode: u32| match k {
+            PKind::Equal => mode & 0o7777 == m,
+            PKind::AtLeast => mode & m == m,
+            PKind::Any => mode & m != 0,
+        };
+        let kinds = [PKind::Equal, PKind::AtLeast, PKind::Any];
+        let mut n = 0usize;
+        for (ia, ka) in kinds.iter().enumerate() {
+            for (ib, kb) in kinds.iter().enumerate() {
+                for (ja, ma) in modes.iter().enumerate() {
+                    for (jb, mb) in modes.iter().enumerate() {
+                        if ja == jb || (ia * 7 + ib * 5 + ja * 3 + jb + ctx.seed as usize) % ctx.tier.pick(6, 1) != 0 {
+                            continue;
+                        }
+                        n += 1;
+                        let (a, b) = (E::T(Tst::Perm(*ka, *ma)), E::T(Tst::Perm(*kb, *mb)));
+                        for op in 0..4 {
+                            let tree = match op {
+                                0 => E::and(a.clone(), b.clone()),
+                                1 => E::or(a.clone(), b.clone()),
+                                2 => E::list(a.clone(), b.clone()),
+                                _ => E::and(E::not(a.clone()), b.clone()),
+                            };
+                            let v = match policy::compile_tree(&tree, None, "/") {
+                                CompileOutcome::Ok(comp) => match policy::run_policy(&comp, files.clone()) {
+                                    Ok(run) if run.error.is_none() => {
+                                        let mut bad = None;
+                                        for (i, f) in files.iter().enumerate() {
+                                            let (x, y) = (holds(*ka, *ma, f.mode), holds(*kb, *mb, f.mode));
+                                            let want = match op {
+                                                0 | 2 => x && y,
+                                                1 => x || y,
+                                                _ => !x && y,
+                                            };
+                                            if run.world.runs[i].error.is_some() || run.world.runs[i].truthy != want {
+                                                bad = Some(format!("{tree:?} on a file of mode {:o}: the two mode tests say {x} and {y}, so the expression is {want}; the emitted policy says {} ({:?})\nprogram:\n{}", f.mode, run.world.runs[i].truthy, run.world.runs[i].error, comp.text));
+                                                break;
+                                            }
+                                        }
+                                        match bad {
+                                            Some(m) => Verdict::Fail(m),
+                                            None => Verdict::Pass { nt: true, class: "two mode tests under an operator, executed on all modes" },
+                                        }
+                                    }
+                                    Ok(run) => Verdict::Fail(format!("{tree:?}: program fails at run time: {:?}", run.error)),
+                                    Err(e) => Verdict::Fail(format!("{tree:?}: {e}")),
+                                },
+                                CompileOutcome::Err(e) => Verdict::Fail(format!("{tree:?}: compile failed: {e}")),
+                                CompileOutcome::Panic(p) => Verdict::Fail(format!("{tree:?}: compile panicked: {p}")),
+                            };
+                            stp.record(&v, stable_hash(&tree), true, || json!({"kind": "perm-pair", "tree": crate::term::encode_expr(&tree)}));
+                        }
+                    }
+                }
+            }
+        }
+        let _ = n;
+    }
+    stp.samples.truncate(1);
+    total.merge(stp);
     // random longer lists, random letter orders and repetitions
     let cases = ctx.tier.pick(300_000u32, 3_000_000u32);
     let shards = 16;
@@ -320,7 +397,7 @@ pub fn run(ctx: &Ctx) -> Report {
     total.merge(rnd);
     Report {
         stats: total,
-        rule: "octal: every 12-bit value in 4- and 3-digit spelling; symbolic: all 315 clauses, all 99,225 ordered pairs, random 3-4 clause lists (some of 5..40 clauses), random letter orders/repetitions, and lists of up to 1000 clauses made of one clause plus repetitions of another; each under the prefixes none, '-', '/'. Oracle: chmod model from mode 0 (W = union of who masks, P = perm bits & W; '+': m|=P, '-': m&=~P, '=': m=(m&~W)|P) -> the tree must be Perm(kind(prefix), mode); and semantically: the emitted policy is executed on files with modes {m, m^bit for each of 12 bits, 0, 07777} x {regular file, directory} (a sample on all 4096 modes) (a third of them with the primary after or before a context that is true for every file: a formatted print with %m, -print, -print0, -perm -000, -name '*') and must agree with Equal: mode&07777==m, AtLeast: mode&m==m, Any: mode&m!=0. Non-trivial: list with >=2 clauses whose who-sets overlap, or a '-'/'=' clause after bits were set, or an executed octal case. Distinct: by (prefix, argument).".into(),
+        rule: "octal: every 12-bit value in 4- and 3-digit spelling; symbolic: all 315 clauses, all 99,225 ordered pairs, random 3-4 clause lists (some of 5..40 clauses), random letter orders/repetitions, and lists of up to 1000 clauses made of one clause plus repetitions of another; each under the prefixes none, '-', '/'. Oracle: chmod model from mode 0 (W = union of who masks, P = perm bits & W; '+': m|=P, '-': m&=~P, '=': m=(m&~W)|P) -> the tree must be Perm(kind(prefix), mode); and semantically: the emitted policy is executed on files with modes {m, m^bit for each of 12 bits, 0, 07777} x {regular file, directory} (a sample on all 4096 modes) (a third of them with the primary after or before a context that is true for every file: a formatted print with %m, -print, -print0, -perm -000, -name '*') and must agree with Equal: mode&07777==m, AtLeast: mode&m==m, Any: mode&m!=0. Pairs of mode tests (every prefix x six modes each) under and / or / ',' / a negation are executed on all 4096 modes: each test keeps its own meaning. Non-trivial: list with >=2 clauses whose who-sets overlap, or a '-'/'=' clause after bits were set, or an executed octal case. Distinct: by (prefix, argument).".into(),
         assumptions: vec!["'-perm /000' is false for every file (statement of C08: any given bit set), not GNU's special case".into()],
         exhaustive: false,
     }
